@@ -4,6 +4,7 @@ From Coq Require Import String.
 From Coq Require Import List ZArith NArith Arith Lia.
 From Coq Require Import Strings.Byte.
 From YVGen Require Import IterFns.
+From YVGen Require ClassSrc.
 From YV Require Import Utf8 IterModel IterSpec IterLang IterProofs IterLangProofs.
 Import ListNotations.
 
@@ -97,6 +98,25 @@ Proof. vm_compute; reflexivity. Qed.
 Theorem C18_side_adapter_iter_is_self : adapter_iter_is_self mapiter_fns = true /\ adapter_iter_is_self filteriter_fns = true.
 Proof. split; vm_compute; reflexivity. Qed.
 
+(* no method of Iter / MapIter / FilterIter calls itself: the adapters search with loops, so the number of elements a
+   filter rejects in a row costs no call frames (FRAMES_MAX = 64, no tail calls) *)
+Theorem C18_side_adapters_not_recursive : iter_self_calls = [].
+Proof. vm_compute; reflexivity. Qed.
+(* vm.rs iter_next_impl sends `next` through the plain `invoke` (instance fields first, then the class), like
+   `it.next()` and the adapters' `self.iterable.next()`; the for statement fetches the iterator by a plain Invoke of
+   "iter" (table regenerated by translator/translate_c07.py, restated here because for C18 a for loop that skipped
+   the instance's field would see another sequence than the other consumers) *)
+Theorem C18_side_for_next_by_plain_invoke :
+  ClassSrc.src_iter_next_code = 0 /\ ClassSrc.src_for_fetches_iterator_by_plain_invoke = true.
+Proof. split; vm_compute; reflexivity. Qed.
+
+(* --- an iterator whose instance FIELD next wraps its class's next hands out what the FIELD produces --- *)
+Theorem C18_field_next_rep : forall st id items,
+  (forall z, nth_error (heap st) id = Some (OWrapped items 0 (WScale z) 0) -> Rep 1 st id (obj_elems KScaled items z)) /\
+  (forall z, nth_error (heap st) id = Some (OWrapped items 0 (WLimit (Z.to_nat z)) 0) -> Rep 1 st id (obj_elems KLimited items z)) /\
+  (nth_error (heap st) id = Some (OWrapped items 0 WCount 0) -> Rep 1 st id (obj_elems KCounted items 0)).
+Proof. exact field_next_rep. Qed.
+
 (* --- user-defined iterables whose iter() does real work (rewinds a cursor, returns a separate cursor, a built-in
    iterator of an inner vec, an adapter chain): what iter() returns hands out the whole denoted sequence, whatever
    was traversed before; and iter() of that result is the identity --- *)
@@ -121,6 +141,9 @@ Proof. exact obj_iter_idem. Qed.
 Print Assumptions C18_side_consumers_call_iter.
 Print Assumptions C18_side_consumers_covered.
 Print Assumptions C18_side_adapter_iter_is_self.
+Print Assumptions C18_side_adapters_not_recursive.
+Print Assumptions C18_side_for_next_by_plain_invoke.
+Print Assumptions C18_field_next_rep.
 Print Assumptions C18_obj_iter_rep.
 Print Assumptions C18_obj_iter_idem.
 Print Assumptions C18_range_value_immutable.
